@@ -110,10 +110,12 @@ class lb_get_focus_offset_inset:
 
 # ------------------------------------------------------------------------------------------------ the chain model
 
-_OK = z3.Function("lbchain$OK", z3.IntSort(), z3.IntSort(), z3.IntSort(), z3.IntSort(), z3.BoolSort())
-_POS = z3.Function("lbchain$POS", z3.IntSort(), z3.IntSort(), z3.IntSort(), z3.IntSort(), z3.IntSort())
-_W = z3.Function("lbchain$W", z3.IntSort(), z3.IntSort(), z3.IntSort(), z3.IntSort(), S.opaque_sort("Widget"))
-_R = z3.Function("lbchain$R", z3.IntSort(), z3.IntSort(), z3.IntSort(), z3.IntSort(), z3.IntSort())
+# arguments: (walker, walker state version, maxcol, direction, step)
+_KEY = (S.opaque_sort("ListWalker"), z3.IntSort(), z3.IntSort(), z3.IntSort(), z3.IntSort())
+_OK = z3.Function("lbchain$OK", *_KEY, z3.BoolSort())
+_POS = z3.Function("lbchain$POS", *_KEY, z3.IntSort())
+_W = z3.Function("lbchain$W", *_KEY, S.opaque_sort("Widget"))
+_R = z3.Function("lbchain$R", *_KEY, z3.IntSort())
 
 UP, DOWN = 0, 1
 
@@ -132,12 +134,12 @@ class Chain:
             self.ver = st.ghost.get("ver_post", st.ghost.get("ver", {})).get(str(self.walker.e), 0)
         else:
             self.ver = P.version(st, self.walker)
-        self.key = (z3.IntVal(self.ver), V._z(maxcol))
+        self.key = (self.walker.e, z3.IntVal(self.ver), V._z(maxcol))
         g = P.uf_value(st, "get_focus", self.walker, [], P.methods["get_focus"].result, self.ver)
         self.focus_widget, self.focus_pos = val(g[0]), g[1]
         # the axioms already instantiated on this path (z3 terms are hash-consed: get_id() identifies the index term)
         self.done = st.ghost.setdefault("lbchain_done", set())
-        base = ("base", self.ver, self.key[1].get_id())
+        base = ("base", self.key[0].get_id(), self.ver, self.key[2].get_id())
         if base not in self.done:
             self.done.add(base)
             for d in (UP, DOWN):
@@ -179,7 +181,7 @@ class Chain:
     def unfold(self, d, k):
         """Definitional axioms at step k (for k >= 0): chain(d, k+1) from chain(d, k)."""
         st = cur()
-        inst = (self.ver, self.key[1].get_id(), d, V._z(k).get_id())
+        inst = (self.key[0].get_id(), self.ver, self.key[2].get_id(), d, V._z(k).get_id())
         if inst in self.done:
             return
         self.done.add(inst)
